@@ -281,6 +281,11 @@ func runC15(out *Out, r *Rand, tier string, replay []string) {
 					data, ptrs = genStruct(r, f, active)
 					lines = append(lines, caseLine("has", f, data, ptrs, "-"))
 				}
+				if (f.Kind == "struct" || f.Kind == "any" || f.Kind == "iface") && f.DWC <= 1024 && f.PC <= 1024 {
+					// pipelined accessor: slot null (default applies) and non-null, any discriminant
+					data, ptrs = genStruct(r, f, 2)
+					lines = append(lines, caseLine("future", f, data, ptrs, "-"))
+				}
 				if f.Kind == "text" {
 					data, ptrs = genStruct(r, f, active)
 					lines = append(lines, caseLine("getbytes", f, data, ptrs, "-"))
